@@ -63,7 +63,7 @@ func vC04Flush(n int, pop bool) {
 	height := vInt("height")
 	vAssume(height >= 2 && height <= 8)
 	cw := cwriter.VNewTerm(rec, nil)
-	s := &pState{popCompleted: pop, hm: make(heapManager, 16), queueBars: make(map[*Bar]*Bar), iterDrop: make(chan struct{}), popPriority: math.MinInt32}
+	s := &pState{popCompleted: pop, hm: newHeapManager(16), queueBars: make(map[*Bar]*Bar), iterDrop: make(chan struct{}), popPriority: math.MinInt32}
 	bars := make([]*Bar, n)
 	specs := make([]vFrameSpec, n)
 	for i := 0; i < n; i++ {
@@ -120,8 +120,8 @@ func vC04Flush(n int, pop bool) {
 	vAssert(redraw <= height-1, "C04.flush.redrawn-lines-fit-the-screen")
 	// bars handed back to the heap manager
 	back := 0
-	for len(s.hm) > 0 {
-		<-s.hm
+	for len(s.hm.req) > 0 {
+		<-s.hm.req
 		back++
 	}
 	vAssert(back == stay, "C05.flush.exactly-the-remaining-bars-are-pushed-back")
